@@ -42,6 +42,21 @@ struct Val {
     #[allow(dead_code)]
     src: usize,
     t: u64,
+    /// prepared triggers: the value is built before the trigger id is known (the id is given when the
+    /// future is first polled)
+    late: Option<std::sync::Arc<std::sync::atomic::AtomicU64>>,
+}
+impl Val {
+    /// trigger id this value belongs to; 999_998 = a prepared trigger whose future was never polled
+    fn tid(&self) -> u64 {
+        match &self.late {
+            None => self.t,
+            Some(a) => match a.load(std::sync::atomic::Ordering::Relaxed) {
+                0 => 999_998,
+                t => t,
+            },
+        }
+    }
 }
 
 /// A trigger type no barrier is ever built for (value 0 of the model).
@@ -62,8 +77,10 @@ impl Future for YieldOnce {
 }
 
 const NO_GUARD: u8 = 99;
-/// (value, sync, guard value or NO_GUARD)
-type Cmd = (u8, bool, u8);
+/// (value, sync, guard value or NO_GUARD, mode)
+/// mode 0: call trigger / trigger_noop now; 1: only BUILD the future `trigger(v)` and keep it ("prepared
+/// trigger"); 2: await the prepared future (its first poll); 3: drop the prepared future unpolled
+type Cmd = (u8, bool, u8, u8);
 type Mailbox = Rc<RefCell<Option<Cmd>>>;
 
 /// A cleanup guard held across a trigger call: if it is dropped while the thread is unwinding (the call
@@ -83,9 +100,9 @@ impl Drop for CleanupGuard {
         let (s, g) = (self.s, self.g);
         let t = self.next_t.get() + 1;
         self.next_t.set(t);
-        rec::emit(json!({"ev":"trig","src":s,"v":g,"sync":true,"t":t,"g":NO_GUARD,"unwind":true}));
+        rec::emit(json!({"ev":"trig","src":s,"v":g,"sync":true,"t":t,"g":NO_GUARD,"unwind":true,"prepared":false}));
         let r = std::panic::catch_unwind(std::panic::AssertUnwindSafe(|| {
-            if g == 0 { trigger_noop(Foreign(0)) } else { trigger_noop(Val { v: g, src: s, t }) }
+            if g == 0 { trigger_noop(Foreign(0)) } else { trigger_noop(Val { v: g, src: s, t, late: None }) }
         }));
         match r {
             Ok(()) => {
@@ -100,25 +117,58 @@ impl Drop for CleanupGuard {
 /// The triggering code: between trigger calls it is parked on a yield; when the
 /// driver polls it with a command in the mailbox it performs that trigger call,
 /// bumps its progress counter when the call returns, and yields again.
-async fn source(s: usize, mb: Mailbox, prog: Rc<Cell<u64>>, next_t: Rc<Cell<u64>>, cur_t: Rc<Cell<u64>>, inside: Rc<Cell<bool>>) {
+async fn source(s: usize, mb: Mailbox, prog: Rc<Cell<u64>>, next_t: Rc<Cell<u64>>, cur_t: Rc<Cell<u64>>, inside: Rc<Cell<bool>>, prepped: Rc<Cell<bool>>) {
+    type Prepared = (Pin<Box<dyn Future<Output = ()>>>, std::sync::Arc<std::sync::atomic::AtomicU64>, u8);
+    let mut prepared: Option<Prepared> = None;
     loop {
         let cmd = mb.borrow_mut().take();
-        if let Some((v, sync, g)) = cmd {
-            let t = next_t.get() + 1;
-            next_t.set(t);
-            cur_t.set(t);
-            inside.set(true);
-            rec::emit(json!({"ev":"trig","src":s,"v":v,"sync":sync,"t":t,"g":g,"unwind":false}));
-            let _guard = (g != NO_GUARD).then(|| CleanupGuard { s, g, prog: prog.clone(), next_t: next_t.clone() });
-            match (v, sync) {
-                (0, true) => trigger_noop(Foreign(0)),
-                (0, false) => trigger(Foreign(0)).await,
-                (_, true) => trigger_noop(Val { v, src: s, t }),
-                (_, false) => trigger(Val { v, src: s, t }).await,
+        match cmd {
+            Some((v, _, _, 1)) => {
+                // build the future now, poll it later: with an `async fn trigger` nothing may happen here
+                rec::emit(json!({"ev":"prep","src":s,"v":v}));
+                let late = std::sync::Arc::new(std::sync::atomic::AtomicU64::new(0));
+                let fut: Pin<Box<dyn Future<Output = ()>>> = Box::pin(trigger(Val { v, src: s, t: 0, late: Some(late.clone()) }));
+                prepared = Some((fut, late, v));
+                prepped.set(true);
             }
-            prog.set(prog.get() + 1);
-            inside.set(false);
-            rec::emit(json!({"ev":"ret","src":s,"t":t,"prog":prog.get()}));
+            Some((_, _, _, 3)) => {
+                rec::emit(json!({"ev":"drop_prep","src":s}));
+                prepared = None;
+                prepped.set(false);
+            }
+            Some((_, _, _, 2)) => {
+                if let Some((fut, late, v)) = prepared.take() {
+                    prepped.set(false);
+                    let t = next_t.get() + 1;
+                    next_t.set(t);
+                    cur_t.set(t);
+                    late.store(t, std::sync::atomic::Ordering::Relaxed);
+                    inside.set(true);
+                    rec::emit(json!({"ev":"trig","src":s,"v":v,"sync":false,"t":t,"g":NO_GUARD,"unwind":false,"prepared":true}));
+                    fut.await;
+                    prog.set(prog.get() + 1);
+                    inside.set(false);
+                    rec::emit(json!({"ev":"ret","src":s,"t":t,"prog":prog.get()}));
+                }
+            }
+            Some((v, sync, g, _)) => {
+                let t = next_t.get() + 1;
+                next_t.set(t);
+                cur_t.set(t);
+                inside.set(true);
+                rec::emit(json!({"ev":"trig","src":s,"v":v,"sync":sync,"t":t,"g":g,"unwind":false,"prepared":false}));
+                let _guard = (g != NO_GUARD).then(|| CleanupGuard { s, g, prog: prog.clone(), next_t: next_t.clone() });
+                match (v, sync) {
+                    (0, true) => trigger_noop(Foreign(0)),
+                    (0, false) => trigger(Foreign(0)).await,
+                    (_, true) => trigger_noop(Val { v, src: s, t, late: None }),
+                    (_, false) => trigger(Val { v, src: s, t, late: None }).await,
+                }
+                prog.set(prog.get() + 1);
+                inside.set(false);
+                rec::emit(json!({"ev":"ret","src":s,"t":t,"prog":prog.get()}));
+            }
+            None => {}
         }
         YieldOnce(false).await;
     }
@@ -131,6 +181,8 @@ struct Src {
     cur_t: Rc<Cell<u64>>,
     /// inside a trigger call (parked on the barrier)
     inside: Rc<Cell<bool>>,
+    /// holds a prepared (built, not yet polled) trigger future
+    prepped: Rc<Cell<bool>>,
 }
 
 struct World {
@@ -157,8 +209,9 @@ impl World {
             let prog = Rc::new(Cell::new(0u64));
             let cur_t = Rc::new(Cell::new(0u64));
             let inside = Rc::new(Cell::new(false));
-            let fut = Box::pin(source(s, mb.clone(), prog.clone(), next_t.clone(), cur_t.clone(), inside.clone()));
-            srcs.push(Src { fut: Some(fut), mb, prog, cur_t, inside });
+            let prepped = Rc::new(Cell::new(false));
+            let fut = Box::pin(source(s, mb.clone(), prog.clone(), next_t.clone(), cur_t.clone(), inside.clone(), prepped.clone()));
+            srcs.push(Src { fut: Some(fut), mb, prog, cur_t, inside, prepped });
         }
         rec::emit(json!({"ev":"reset","nsrc":nsrc}));
         World { bars: Vec::new(), handles: BTreeMap::new(), srcs }
@@ -199,7 +252,7 @@ impl World {
         let res = match r {
             Poll::Pending => 0,
             Poll::Ready(Some(tr)) => {
-                let t = tr.t;
+                let t = tr.tid();
                 self.handles.insert(t, tr);
                 t
             }
@@ -225,6 +278,10 @@ impl World {
         match cmd {
             Some(c) => {
                 if src.inside.get() {
+                    return false;
+                }
+                // a source holds at most one prepared future; firing / dropping needs one
+                if (c.3 == 1 && (src.prepped.get() || c.0 == 0)) || ((c.3 == 2 || c.3 == 3) && !src.prepped.get()) {
                     return false;
                 }
                 *src.mb.borrow_mut() = Some(c);
@@ -288,9 +345,12 @@ fn execute(beh: &[Value], nsrc: usize) -> (Vec<Value>, Option<String>) {
             "wait" => w.wait(e["b"].as_u64().unwrap() as usize),
             "drop_handle" => w.drop_handle(e["t"].as_u64().unwrap()),
             "trig" if e["unwind"] == true => true, // produced by the cleanup guard of the code under test
+            "prep" => w.poll_src(e["src"].as_u64().unwrap() as usize, Some((e["v"].as_u64().unwrap() as u8, false, NO_GUARD, 1))),
+            "drop_prep" => w.poll_src(e["src"].as_u64().unwrap() as usize, Some((0, false, NO_GUARD, 3))),
+            "trig" if e["prepared"] == true => w.poll_src(e["src"].as_u64().unwrap() as usize, Some((0, false, NO_GUARD, 2))),
             "trig" => w.poll_src(
                 e["src"].as_u64().unwrap() as usize,
-                Some((e["v"].as_u64().unwrap() as u8, e["sync"].as_bool().unwrap(), e["g"].as_u64().unwrap_or(NO_GUARD as u64) as u8)),
+                Some((e["v"].as_u64().unwrap() as u8, e["sync"].as_bool().unwrap(), e["g"].as_u64().unwrap_or(NO_GUARD as u64) as u8, 0)),
             ),
             "poll" => w.poll_src(e["src"].as_u64().unwrap() as usize, None),
             _ => true, // ret / panicked / poll_end are produced by the code
@@ -411,7 +471,7 @@ fn main_random(args: &[String]) {
                 let v = rng.random_range(1..=nvals);
                 let sync = rng.random_bool(0.3);
                 // a source that got stuck inside a call is polled instead (its poll_end records that it is stuck)
-                if w.poll_src(s, Some((v, sync, NO_GUARD))) {
+                if w.poll_src(s, Some((v, sync, NO_GUARD, 0))) {
                     ntrig += 1;
                 } else {
                     w.poll_src(s, None);
@@ -456,7 +516,17 @@ fn main_random(args: &[String]) {
                     let sync = rng.random_bool(0.25);
                     // one call in five holds a cleanup guard that triggers while the call unwinds
                     let g = if rng.random_bool(0.2) { rng.random_range(0..=nvals) } else { NO_GUARD };
-                    if w.poll_src(s, Some((v, sync, g))) {
+                    // prepared triggers: build the future now, poll (or drop) it later
+                    let mode = if w.srcs[s - 1].prepped.get() {
+                        if rng.random_bool(0.5) { if rng.random_bool(0.75) { 2 } else { 3 } } else { 0 }
+                    } else if rng.random_bool(0.15) && v != 0 {
+                        1
+                    } else {
+                        0
+                    };
+                    if mode != 0 {
+                        w.poll_src(s, Some((v, false, NO_GUARD, mode)));
+                    } else if w.poll_src(s, Some((v, sync, g, 0))) {
                         ntrig += 1;
                     }
                 }
@@ -550,15 +620,15 @@ async fn sim_source(s: usize, script: Vec<(u64, u8, bool)>, prog: Rc<Cell<u64>>,
         }
         let t = next_t.get() + 1;
         next_t.set(t);
-        rec::emit(json!({"ev":"trig","src":s,"v":v,"sync":sync,"t":t,"g":NO_GUARD,"unwind":false}));
+        rec::emit(json!({"ev":"trig","src":s,"v":v,"sync":sync,"t":t,"g":NO_GUARD,"unwind":false,"prepared":false}));
         if v >= 3 {
             let mut b = [0u8; 1];
             let n = files[&v].read_at(&mut b, t)?;
             assert_eq!(n, 1);
         } else if sync {
-            trigger_noop(Val { v, src: s, t });
+            trigger_noop(Val { v, src: s, t, late: None });
         } else {
-            trigger(Val { v, src: s, t }).await;
+            trigger(Val { v, src: s, t, late: None }).await;
         }
         prog.set(prog.get() + 1);
         rec::emit(json!({"ev":"ret","src":s,"t":t,"prog":prog.get()}));
@@ -581,7 +651,7 @@ fn wait_any(bar: &mut AnyBar, handles: &mut BTreeMap<u64, AnyHandle>) -> u64 {
     match bar {
         AnyBar::V(bar) => match poll_once(bar.wait()) {
             Poll::Ready(Some(tr)) => {
-                let t = tr.t;
+                let t = tr.tid();
                 handles.insert(t, AnyHandle::V(tr));
                 t
             }
